@@ -74,7 +74,9 @@ pub fn child(kind: usize, k: usize, renderer: &str, size: usize, path: &str) {
 /// `file <kind> <k> <renderer> <size> => <ok|err|trap|crash> <absent|equal|prefix:<n>|differs:<n>> <expected len>`
 pub fn file_line(kind: usize, k: usize, renderer: &str, size: usize) -> String {
     let expected = rendering(renderer, size);
-    let dir = format!("/verif/work/fault-{}-{}-{}-{}-{}", std::process::id(), kind, k, renderer, size);
+    static SEQ: std::sync::atomic::AtomicUsize = std::sync::atomic::AtomicUsize::new(0);
+    let seq = SEQ.fetch_add(1, std::sync::atomic::Ordering::SeqCst);
+    let dir = format!("/verif/work/fault-{}-{}-{}-{}-{}-{}", std::process::id(), seq, kind, k, renderer, size);
     let _ = std::fs::remove_dir_all(&dir);
     std::fs::create_dir_all(&dir).unwrap();
     let ext = renderer;
@@ -155,6 +157,10 @@ pub fn gen(out: &mut crate::gen::Out, rng: &mut crate::rng::Rng, thorough: bool)
             if thorough {
                 ks.extend((0..len.min(600)).step_by(7));
             }
+            // one job per distinct k: two jobs with the same (kind, k, renderer, size) would share a
+            // scratch directory and race (seen once as a spurious "err absent")
+            ks.sort();
+            ks.dedup();
             for k in ks {
                 out.job(move || file_line(5, k, renderer, size));
             }
